@@ -14,8 +14,10 @@ ROOT = os.path.dirname(os.path.dirname(os.path.abspath(__file__)))
 class Mpsc:
     """mirror of Chan/ModelMpsc.v `step` (same branch structure)"""
 
-    def __init__(self, cap, progs, spurious=False, cancel=False):
-        self.cap, self.spurious, self.cancel = cap, spurious, cancel
+    def __init__(self, cap, progs, spurious=False, cancel=False, fixed=False):
+        # fixed=True: behaviour with fixes/C16_wake_all_senders.diff applied (used only to
+        # validate the proposed repair by hand, never by the check itself)
+        self.cap, self.spurious, self.cancel, self.fixed = cap, spurious, cancel, fixed
         self.buf, self.sw, self.rw = [], [], False
         self.rx, self.rx_woken, self.rx_done = "open", True, False
         self.tasks = []
@@ -98,7 +100,10 @@ class Mpsc:
         if k == "r":
             if self.buf:
                 v = self.buf.pop(0)
-                ws = [self.sw.pop(0)] if self.sw else []
+                if self.fixed:
+                    ws, self.sw = list(reversed(self.sw)), []
+                else:
+                    ws = [self.sw.pop(0)] if self.sw else []
                 self.recvd.append(v)
                 self.rx_woken = True
                 self.wake(ws)
